@@ -17,6 +17,9 @@ template <class C, class = void> struct has_member_begin : std::false_type {};
 template <class C> struct has_member_begin<C, std::void_t<decltype(std::declval<C&>().begin())>> : std::true_type {};
 template <class C> auto seq_begin(C& c) { if constexpr (has_member_begin<C>::value) return c.begin(); else return begin(c); }
 template <class C> auto seq_end(C& c) { if constexpr (has_member_begin<C>::value) return c.end(); else return end(c); }
+// the free (ADL) begin / end / size functions some containers provide in addition to the members
+template <class C, class = void> struct has_adl_range : std::false_type {};
+template <class C> struct has_adl_range<C, std::void_t<decltype(begin(std::declval<C&>())), decltype(end(std::declval<C&>())), decltype(size(std::declval<const C&>()))>> : std::true_type {};
 
 template <class R, class E, long CAP, Kind KIND>
 struct Ad {
@@ -161,6 +164,12 @@ struct SeqTarget : Target {
             std::vector<E> seen;
             { Sut s; SimGuard g; R& r = *obj(o); for (auto it = seq_begin(r); it != seq_end(r); ++it) seen.push_back(*it); }
             env->applied(op, on, false);
+            if constexpr (has_adl_range<R>::value) {   // free functions must delimit the same range
+                R& r = *obj(o); const R& cr = r; bool ok; size_t fs;
+                { Sut s; ok = begin(r) == r.data() && end(r) == r.data() + r.size() && begin(cr) == cr.data() && end(cr) == cr.data() + cr.size(); fs = (size_t)size(cr); }
+                if (!ok || fs != model[o].size()) { env->violation("SPAN", nm + " free begin()/end()/size() disagree with data()/size() (size " + std::to_string(fs) + ", expected " + std::to_string(model[o].size()) + ")"); return true; }
+                probe("seq.adl_range_checked");
+            }
             if (seen.size() != model[o].size()) { env->violation("SPAN", nm + " begin..end yields " + std::to_string(seen.size()) + " elements, size should be " + std::to_string(model[o].size())); return true; }
             for (size_t i = 0; i < seen.size(); i++) if (!bits_equal(seen[i], model[o][i])) {
                 env->violation("CONTENT", nm + " iteration element " + std::to_string(i) + " = " + show(seen[i]) + ", std::vector holds " + show(model[o][i])); break; }
